@@ -79,7 +79,8 @@ def oracle(req, impl, build):
 
 
 def corpus(build):
-    return ["word gen=xoshiro state=0,0,0,0 via=serde ops=jump,u64,split,u64",
+    from .gen_int import literal_sweep
+    return literal_sweep("jump,u64,split,u64,u64,jump,u64") + ["word gen=xoshiro state=0,0,0,0 via=serde ops=jump,u64,split,u64",
             "word gen=splitmix seed=0 via=from_seed ops=jump,jump,u64,split,u64",
             "word gen=wyrand seed=18446744073709551615 via=from_seed ops=split,split,split,u64",
             "chacha n=8 key=0,0,0,0,0,0,0,0 ctr=1 str=4294967295 ops=u64,jump,u64,split,u64",
